@@ -141,6 +141,7 @@ class Engine:
         self.enum_discr = dict(STD_DISCR)
         self.structs = {}
         self.structs_q = {}
+        self.field_types = {}        # (file, struct, field) -> type text
         self.impl_info = {}
         self.by_method = {}
         self.closure_by_span = {}
@@ -246,10 +247,32 @@ class Engine:
                     for am in re.finditer(r'#\[cfg\((.*?)\)\]\s', part + ' ', re.S):
                         on = on and self.cfg_on(am.group(1))
                     part2 = re.sub(r'#\[(?:[^\[\]]|\[[^\]]*\])*\]', '', part).strip()
-                    mm = re.match(r'(?:pub(?:\([a-z]+\))?\s+)?(\w+)\s*:', part2)
-                    if mm and on: names.append(mm.group(1))
+                    mm = re.match(r'(?:pub(?:\([a-z]+\))?\s+)?(\w+)\s*:\s*(.*)$', part2, re.S)
+                    if mm and on:
+                        names.append(mm.group(1)); self.field_types[(p, m.group(1), mm.group(1))] = ' '.join(mm.group(2).split())
                 self.structs_q[(p, m.group(1))] = names
                 if m.group(1) not in self.structs: self.structs[m.group(1)] = names
+
+    def default_field(self, path, struct_name, field_name):
+        """value of a struct field the harness does not know (a maintainer added it): the Default of container-like types, as the crate's constructors would
+        initialise a cache / counter; anything else is unsupported (exit 2), never guessed"""
+        ty = self.field_types.get((path, struct_name, field_name), '?')
+        t = re.sub(r'\b(std|core|alloc)::(\w+::)*', '', ty)
+        def dv(t):
+            t = t.strip()
+            m = re.match(r'(RefCell|Cell|Mutex|RwLock|Arc|Rc|Box)<(.*)>$', t)
+            if m:
+                kind = {'RefCell': 'refcell', 'Cell': 'refcell', 'Mutex': 'mutex', 'RwLock': 'rwlock', 'Arc': 'arc', 'Rc': 'arc', 'Box': 'box'}[m.group(1)]
+                return CellObj(dv(m.group(2)), kind)
+            if re.match(r'(HashMap|BTreeMap)<', t): return MapObj()
+            if re.match(r'(HashSet|BTreeSet)<', t): return SetObj()
+            if re.match(r'(Vec|VecDeque)<', t): return VecObj()
+            if re.match(r'Option<', t): return NONE()
+            if t == 'bool': return False
+            if t in INT_TYPES: return 0
+            if t == 'String': return StrBuf('')
+            raise Unsupported('struct %s has a field %s of type %s that the harness cannot initialise' % (struct_name, field_name, ty))
+        return dv(t)
 
     def field(self, struct_name, field_name):
         return self.structs[struct_name].index(field_name)
